@@ -53,9 +53,10 @@ inductive XOp
 
 /-- SFC_SET_CHANNEL_MAP_INFO on a handle whose stored map (with its layout tag) is `old`, for a valid map `m` with layout tag `tag`
     (0 = the container has no tag for it: the call answers SF_FALSE).  Since the repair ("fix: a refused SFC_SET_CHANNEL_MAP_INFO
-    erased the channel map set before it") a map without a tag replaces nothing.  (With no map set before, the C keeps the refused
-    map in psf->channel_map; nothing of it reaches the file and this model does not describe SFC_GET_CHANNEL_MAP_INFO on the write
-    handle, so that state is represented as `old`.) -/
+    erased the channel map set before it") a map without a tag replaces nothing, and since "fix: a refused
+    SFC_SET_CHANNEL_MAP_INFO on a handle without a channel map left the refused map behind" that is literally so with no map set
+    before as well: psf->channel_map stays NULL (`Sf.ChmapVerdict.setMap`, which also carries SFC_GET_CHANNEL_MAP_INFO on the
+    write handle, is the same rule: SfProps/C09Chmap.lean). -/
 def applyChmap (old : Option (List Nat × Nat)) (m : List Nat) (tag : Nat) : Option (List Nat × Nat) :=
   if tag = 0 then old else some (m, tag)
 
